@@ -343,6 +343,10 @@ void _mzd_compress_l(mzd_t *A, rci_t r1, rci_t n1, rci_t r2) {
 
   for (rci_t i = r1 + r2; i < A->nrows; ++i) {
 
+    /* whole words are cleared below: keep the excess bits of the last word (A may be a window) */
+    word *const lastword = mzd_row(A, i) + A->width - 1;
+    word const excess    = *lastword & ~A->high_bitmask;
+
     rci_t j = r1;
 
     /* first we deal with the rest of the current word we need to
@@ -391,6 +395,8 @@ void _mzd_compress_l(mzd_t *A, rci_t r1, rci_t n1, rci_t r2) {
        which deals with last few bits. */
 
     for (; j < n1 + r2; j += m4ri_radix) { row[j / m4ri_radix] = 0; }
+
+    *lastword = (*lastword & A->high_bitmask) | excess;
   }
 
 #endif
